@@ -122,7 +122,7 @@ fn one<G: SymGroup + GroupEncoding + SerializeElement, const N: usize>(seed: u64
         // vacuity twin: with an identity generator the slot is free (must be satisfiable)
         let mut h0 = eng::hyps();
         h0.push(is_z(gen));
-        let (w, _) = eng::satisfiable(&format!("C09 twin: identity generator frees {} ({})", what, tag), "WITNESS", &h0, &ne(a, b));
+        let (w, _) = eng::satisfiable(&format!("C09 twin: identity generator frees {} ({})", what, tag), "TWIN", &h0, &ne(a, b));
         if !matches!(w, Tri::Yes) {
             eng::inconclusive(&format!("C09 vacuity twin for {} {} did not come back sat", what, tag));
         }
@@ -160,7 +160,7 @@ fn from_key<const N: usize>(seed: u64) {
 fn generated<G: SymGroup + GroupEncoding + SerializeElement, const N: usize>(seed: u64, tier: Tier) {
     let d = if tier == Tier::Quick { 1 } else { 2 };
     eng::bound(&format!("PedersenParameters::new: paths with at most {} degenerate (identity) draws", d));
-    let st = explore(DrawMode::Free, seed, d, 400, |_, _| true, |_p| {
+    let st = explore(DrawMode::Free, seed, d, 400, &[], |_p| {
         let mut rng = SeedRng::new(seed);
         let params = PedersenParameters::<G, N>::new(&mut rng);
         let at = atoms::atoms_of(&params);
